@@ -156,6 +156,11 @@ namespace awkward {
 
   void
   ArrayBuilder::begintuple(int64_t numfields) {
+    if (numfields < 0) {
+      throw std::invalid_argument(
+        std::string("'begintuple' needs a non-negative number of fields, not ")
+        + std::to_string(numfields) + FILENAME(__LINE__));
+    }
     maybeupdate(builder_.get()->begintuple(numfields));
   }
 
